@@ -295,7 +295,12 @@ impl<'de, 't, 'a> de::Deserializer<'de> for &'a mut Deserializer<'de, 't> {
                 if let Type::Record(_) = **typ {
                     deserializer.deserialize_enum("", &[], visitor)
                 } else {
-                    deserializer.deserialize_map(visitor)
+                    // `deserialize_map` only understands records and falls back to
+                    // `deserialize_any`: calling it here would recurse forever
+                    Err(VmError::Message(format!(
+                        "Unable to deserialize `{}`",
+                        self.typ
+                    )))
                 }
             }
             ValueRef::Float(_) => self.deserialize_f64(visitor),
